@@ -50,34 +50,20 @@ Theorem C07_text_ok_refuted_range : exists tok,
   text_spelling tok = true /\ text_lit tok = None /\ text_value_model tok = [].
 Proof. exact text_ok_refuted_range. Qed.
 
-(* ---- h'...' ----
-   FULL STATEMENT (false, see C07_b16_ok_refuted):
-     forall tok, bytes_b16_spelling tok = true -> bytes_b16_model tok = b16_lit tok.
-   Excluded class: Render.extra_ws (a Unicode White_Space character that is not whitespace of the grammar, outside
-   comments). *)
-Theorem C07_b16_ok_partial : forall tok, bytes_b16_spelling tok = true ->
-  extra_ws false (b16_content tok) = false -> bytes_b16_model tok = b16_lit tok.
-Proof. exact b16_ok_partial. Qed.
+(* ---- h'...' : whitespace / comment removal + base16, on every admitted spelling (full since 320d006) ---- *)
+Theorem C07_b16_ok : forall tok, bytes_b16_spelling tok = true -> bytes_b16_model tok = b16_lit tok.
+Proof. exact b16_ok. Qed.
 
 Theorem C07_hex_decode_base16 : forall s, hex_decode s = base16 s.
 Proof. exact hex_decode_base16. Qed.
 
-Theorem C07_b16_ok_refuted : exists tok,
-  bytes_b16_spelling tok = true /\ b16_lit tok = None /\ bytes_b16_model tok = Some [18; 52].
-Proof. exact b16_ok_refuted. Qed.
+(* ---- b64'...' : either alphabet, optional canonical padding only at the end (full since 320d006, 951a310) ---- *)
+Theorem C07_b64_ok : forall tok, bytes_b64_spelling tok = true -> bytes_b64_model tok = b64_lit tok.
+Proof. exact b64_ok. Qed.
 
-(* ---- b64'...' ----
-   FULL STATEMENT (false, see the two C07_b64_ok_refuted theorems):
-     forall tok, bytes_b64_spelling tok = true -> bytes_b64_model tok = b64_lit tok.
-   Excluded classes: Render.extra_ws as above, and Render.inner_pad ('=' followed by another character). *)
-Theorem C07_b64_ok_partial : forall tok, bytes_b64_spelling tok = true ->
-  extra_ws false (b64_content tok) = false ->
-  inner_pad (strip_ws_comments false (b64_content tok)) = false ->
-  bytes_b64_model tok = b64_lit tok.
-Proof. exact b64_ok_partial. Qed.
-
-(* alphabet detection + choice among the four data_encoding decoders = RFC 4648 under either alphabet *)
-Theorem C07_base64_decode_either : forall s, inner_pad s = false -> base64_decode s = base64_either s.
+(* alphabet detection + padding-position check + choice among the four data_encoding decoders = RFC 4648 under
+   either alphabet, on every input *)
+Theorem C07_base64_decode_either : forall s, base64_decode s = base64_either s.
 Proof. exact base64_decode_either. Qed.
 
 (* decoding inverts the RFC 4648 encoding: the crate's decoder on every unpadded base64url encoding (the form the
@@ -89,14 +75,6 @@ Theorem C07_spec_b64_decodes_encodings : forall bs, wf_bytes bs ->
   base64_groups BASE64 (base64_encode BASE64 bs) = Some bs
   /\ base64_groups BASE64URL (base64_encode BASE64URL bs) = Some bs.
 Proof. exact spec_b64_decodes_encodings. Qed.
-
-Theorem C07_b64_ok_refuted_ws : exists tok,
-  bytes_b64_spelling tok = true /\ b64_lit tok = None /\ bytes_b64_model tok = Some [97].
-Proof. exact b64_ok_refuted_ws. Qed.
-
-Theorem C07_b64_ok_refuted_inner_pad : exists tok,
-  bytes_b64_spelling tok = true /\ b64_lit tok = None /\ bytes_b64_model tok = Some [97; 97].
-Proof. exact b64_ok_refuted_inner_pad. Qed.
 
 (* ---- '...' ----
    FULL STATEMENT (false, see C07_bytes_utf8_ok_refuted):
@@ -110,23 +88,19 @@ Theorem C07_bytes_utf8_ok_refuted : exists tok,
   bytes_utf8_spelling tok = true /\ bytes_text_lit tok = Some [97; 92; 98] /\ bytes_utf8_chars tok = [97; 92; 92; 98].
 Proof. exact bytes_utf8_ok_refuted. Qed.
 
-(* ---- floats: finite or rejected (correct rounding itself is tied differentially, not proved) ----
-   FULL STATEMENT (false, see C07_float_finite_refuted):
-     forall s, float_spelling s = true -> float_model_class s = Some FFinite.
-   Excluded class: magnitude >= 2^1024 - 2^970 (magnitude_overflows), decided by overflows_exec. *)
+(* ---- floats: finite or rejected (correct rounding itself is tied differentially, not proved); full since 4743917 ----
+   a float literal is rejected exactly when its magnitude is >= 2^1024 - 2^970 (where round-to-nearest-even gives
+   an infinity), stored as a finite value otherwise; an infinity is never stored *)
 Theorem C07_float_overflow_decided : forall m e, overflows_exec m e = true <-> magnitude_overflows m e.
 Proof. exact overflows_exec_spec. Qed.
 
-Theorem C07_float_finite_partial : forall s f, split_float s = Some f ->
-  ~ magnitude_overflows (df_mantissa f) (df_exp10 f) -> float_model_class s = Some FFinite.
-Proof. exact float_finite_partial. Qed.
+Theorem C07_float_finite_or_rejected : forall s f, split_float s = Some f ->
+  (magnitude_overflows (df_mantissa f) (df_exp10 f) -> float_model_class s = None)
+  /\ (~ magnitude_overflows (df_mantissa f) (df_exp10 f) -> float_model_class s = Some FFinite).
+Proof. exact float_finite_or_rejected. Qed.
 
-Theorem C07_float_infinite_iff : forall s f, split_float s = Some f ->
-  (float_model_class s = Some FInfinite <-> magnitude_overflows (df_mantissa f) (df_exp10 f)).
-Proof. exact float_infinite_iff. Qed.
-
-Theorem C07_float_finite_refuted : exists s, float_spelling s = true /\ float_model_class s = Some FInfinite.
-Proof. exact float_finite_refuted. Qed.
+Theorem C07_float_never_infinite : forall s, float_model_class s <> Some FInfinite.
+Proof. exact float_never_infinite. Qed.
 
 (* ---- non-vacuity: the hypotheses are satisfiable by non-trivial inputs ---- *)
 Example C07_example_int :          (* 0XfF = 255; 2^64 is rejected although its value is defined; -0x8000000000000000 *)
@@ -151,9 +125,11 @@ Proof. vm_compute. reflexivity. Qed.
 
 Example C07_example_bytes :        (* h'0a ;c<LF> fF' ; b64 with base64url alphabet, a comment and padding ; mixed alphabets *)
   bytes_b16_spelling [104;39;48;97;32;59;99;10;32;102;70;39] = true
-  /\ extra_ws false (b16_content [104;39;48;97;32;59;99;10;32;102;70;39]) = false
   /\ b16_lit [104;39;48;97;32;59;99;10;32;102;70;39] = Some [10; 255]
   /\ b64_lit [98;54;52;39; 45;95;56;32;59;99;10;32;61; 39] = Some [251; 255]
   /\ b64_lit [98;54;52;39; 43;47;56;61; 39] = Some [251; 255]
-  /\ b64_lit [98;54;52;39; 43;95;56;61; 39] = None.
+  /\ b64_lit [98;54;52;39; 43;95;56;61; 39] = None
+  /\ bytes_b16_model [104; 39; 49; 50; 160; 51; 52; 39] = None                       (* h'12<U+00A0>34' *)
+  /\ bytes_b64_model [98; 54; 52; 39; 89; 81; 61; 61; 89; 81; 61; 61; 39] = None     (* b64'YQ==YQ==' *)
+  /\ float_spelling [49; 101; 57; 57; 57] = true /\ float_model_class [49; 101; 57; 57; 57] = None.   (* 1e999 *)
 Proof. vm_compute. repeat split; reflexivity. Qed.
